@@ -14,6 +14,8 @@ WITNESSES = [
      "ipc", "1.1.1.1.1.1.2.0.0.0.0", "c0+s0", ["q_0", "sr_0", "pd_0", "cd_0", "cc_0", "q_0", "as_0", "pr_0"]),
     ("stale response queued in a reused channel is discarded by the request-id filter",
      "ipc", "1.1.1.1.1.1.1.0.0.0.0", "c0+s0", ["q_0", "sr_0", "as_0", "pd_0", "qd_0", "qd_0", "q_0", "as_0", "pr_0", "pr_0"]),
+    ("a stale ActiveRequest dropped after the request that inherited its channel set the disconnect hint: both ends of the live request stay connected",
+     "local", "2.1.1.1.1.1.1.1.0.0.0", "c0+s0", ["q_0", "sr_0", "pd_0", "qd_0", "qd_0", "qd_0", "qd_0", "q_0", "sr_0", "ph_0", "ad_0", "as_0", "pr_0"]),
     ("client loan fails with OutOfMemory inside all limits (no request overflow)",
      "local", "1.1.1.1.1.1.1.0.0.0.0", "c0+s0", ["q_0", "sr_0", "pd_0", "qd_0", "q_0", "l_0"]),
     ("server loan fails with OutOfMemory inside all limits; the failed loan gives the per-request loan counter back (fixed: 99179a3)",
@@ -158,6 +160,13 @@ def run(ctx):
     exh("local", "1.1.2.1.2.1.1.0.0.0.0", "c0+s0", "q_0+sr_0+as_0+pd_0+qd_0+qd_0", "reuse", L, nsh)
     exh("local", "1.1.2.1.2.1.1.1.1.1.0", "c0+s0", "q_0+sr_0+as_0+as_0+pd_0+qd_0+qd_0", "reuse", L, nsh)
     exh("ipc", "1.1.1.1.1.1.1.0.0.0.0", "c0+s0", "q_0+sr_0+as_0+pd_0+qd_0+qd_0", "core", LI, nsh)
+    # disconnect hint vs a stale ActiveRequest kept alive across a full cycle of the channel-id pool (pool =
+    # max_servers*2*max_active+max_loaned = 5 / 6 / 9): request B inherits A's channel, then every order of
+    # set_disconnect_hint / drops / sends
+    exh("local", "2.1.1.1.1.1.1.1.0.0.0", "c0+s0", "q_0+sr_0+pd_0+qd_0+qd_0+qd_0+qd_0+q_0+sr_0", "hint", L, nsh)
+    exh("local", "2.2.2.1.1.1.1.1.1.0.0", "c0+s0", "q_0+sr_0+pd_0+qd_0+qd_0+qd_0+qd_0+qd_0+q_0+sr_0", "hint", LI, nsh)
+    exh("local", "2.1.1.1.1.2.1.1.0.1.0", "c0+s0", "q_0+sr_0+pd_0+" + "qd_0+" * 8 + "q_0+sr_0", "hint", LI, nsh)
+    exh("ipc", "2.1.1.1.1.1.1.1.0.0.0", "c0+s0", "q_0+sr_0+pd_0+qd_0+qd_0+qd_0+qd_0+q_0+sr_0", "hint", LI, nsh)
     # loans on both sides
     exh("local", "2.2.1.1.2.1.1.0.0.0.0", "c0+s0", "-", "loan", LI, nsh)
     exh("local", "1.1.1.1.1.1.1.1.0.0.0", "c0+s0", "-", "loan", LI, nsh)
@@ -272,14 +281,14 @@ def run(ctx):
             if len(a) > 3 and (a[2], a[3]) not in cfgs:
                 cfgs.append((a[2], a[3]))
         sjobs = []
-        for variant, cfg in cfgs[:3]:
-            for i in range(4):
+        for variant, cfg in cfgs[:2]:
+            for i in range(2):
                 sjobs.append(("search:rnd:%s:%s:%d" % (variant, cfg, i),
-                              [exe, "rnd", "local", cfg, "c0+c1+s0+s1", "-", "full", "300", str(i), "4", str(ctx.seed + 7919), "120"]))
-            for alpha in ("core", "reuse", "loan"):
-                for i in range(4):
-                    sjobs.append(("search:exh:%s:%s:%d" % (cfg, alpha, i), [exe, "exh", "local", cfg, "c0+s0", "-", alpha, str(L + 1), str(i), "4", seed]))
-        sr = vlib.run_pipelines(sjobs, driver)
+                              [exe, "rnd", "local", cfg, "c0+c1+s0+s1", "-", "full", "300", str(i), "2", str(ctx.seed + 7919), "60"]))
+            for alpha in ("core", "reuse", "hint"):
+                for i in range(2):
+                    sjobs.append(("search:exh:%s:%s:%d" % (cfg, alpha, i), [exe, "exh", "local", cfg, "c0+s0", "-", alpha, str(L), str(i), "2", seed]))
+        sr = vlib.run_pipelines(sjobs, driver, timeout=60)   # bounded: the quick check stays short when the tie breaks
         cleanup()
         ctx.cov["search_phase"] = {"jobs": len(sjobs), "cases": sr["cases"], "spec_mismatches": sr["mismatches_spec"]}
         found = [m for m in sr["mismatch_lines"] if "kind=spec" in m[2] and classify(m[2]) != KNOWN]
